@@ -58,11 +58,21 @@ s_toint = z3.Function('intlit', z3.StringSort(), z3.IntSort())
 s_strip = z3.Function('pystrip', z3.StringSort(), z3.StringSort())
 s_lstrip = z3.Function('pylstrip', z3.StringSort(), z3.StringSort())
 s_rstrip = z3.Function('pyrstrip', z3.StringSort(), z3.StringSort())
+strrep_f = z3.Function('strrep', z3.StringSort(), z3.IntSort(), z3.StringSort())      # s * n
 pow2_out = z3.Function('pow2_out_of_table', z3.IntSort(), z3.IntSort())
 bitlen_f = z3.Function('bitlen', z3.IntSort(), z3.IntSort())
 popcount_f = z3.Function('popcount', z3.IntSort(), z3.IntSort())
 
 WHITESPACE = ' \t\n\r\x0b\x0c'
+
+def pystr(zs):
+    """Python str of a z3 string literal (as_string() returns the SMT-LIB escaped form)"""
+    t = zs.as_string()
+    import re as _re
+    t = _re.sub(r'\\u\{([0-9a-fA-F]+)\}', lambda m: chr(int(m.group(1), 16)), t)
+    t = _re.sub(r'\\x([0-9a-fA-F]{2})', lambda m: chr(int(m.group(1), 16)), t)
+    return t
+
 
 I = z3.IntVal
 B = z3.BoolVal
@@ -446,6 +456,8 @@ class Engine(object):
             return Val.vtxt(sv.z)
         if sv.ty == BOOL:
             return Val.vbool(sv.z)
+        if is_reflike(sv.ty):
+            return z3.If(sv.z == 0, Val.vnone, Val.vref(sv.z))
         raise Unsupported('cannot convert %r to Val' % (sv.ty,))
 
     def coerce(self, sv, ty):
@@ -472,6 +484,8 @@ class Engine(object):
             return SV(FLOAT, Val.fval(sv.z))
         if sv.ty == VAL and ty in (BYTES, STR):
             return SV(ty, Val.bval(sv.z) if ty == BYTES else Val.tval(sv.z))
+        if sv.ty == VAL and is_reflike(ty):
+            return SV(ty, z3.If(Val.is_vnone(sv.z), I(0), Val.rval(sv.z)))
         if sv.ty in (STR, BYTES) and ty in (STR, BYTES):
             return SV(ty, sv.z)
         if isinstance(sv.ty, TupleT) and isinstance(ty, TupleT) and len(sv.ty.elems) == len(ty.elems):
@@ -502,7 +516,7 @@ class Engine(object):
                           z3.Implies(Val.is_vbool(v), Val.oval(v)),
                           z3.Implies(Val.is_vbyt(v), z3.Length(Val.bval(v)) != 0),
                           z3.Implies(Val.is_vtxt(v), z3.Length(Val.tval(v)) != 0),
-                          z3.Implies(Val.is_vflt(v), Val.fval(v) != f_i2f(I(0))))
+                          z3.Implies(Val.is_vflt(v), Val.fval(v) != f_i2f(I(0))))      # vref: objects are truthy (no __bool__ / __len__ modelled)
         if isinstance(t, TupleT):
             return B(len(t.elems) != 0)
         if t == FLOAT:
@@ -670,10 +684,10 @@ class Engine(object):
                 return S('')
             if k <= 64:
                 return z3.Concat(*([s] * k)) if k > 1 else s
-        # symbolic repetition of a one-character string: characterised by length + membership in c*
-        r = fresh('rep', z3.StringSort())
-        if z3.is_string_value(ss) and len(ss.as_string()) >= 1:
-            lit = ss.as_string()
+        # symbolic repetition of a literal: a function of (literal, count), characterised by length + membership in lit*
+        r = strrep_f(s, n)
+        if z3.is_string_value(ss) and len(pystr(ss)) >= 1:
+            lit = pystr(ss)
             self._pending_facts.append(z3.And(
                 z3.Length(r) == z3.If(n > 0, n * len(lit), I(0)),
                 z3.InRe(r, z3.Star(z3.Re(S(lit))))))
@@ -882,15 +896,15 @@ class Engine(object):
         """Typing discipline L6: a list / dict whose static element type is an object reference never holds
         None (every store in verified code is checked by `elem_store_check`; for inputs it is part of
         well-typedness, listed in the trusted base)."""
-        if isinstance(elem_ty, Ref) and not getattr(elem_ty, 'optional', False):
+        if is_reflike(elem_ty) and not getattr(elem_ty, 'optional', False):
             st.assume(z > 0)
 
     def elem_store_check(self, ctx, st, elem_ty, v):
-        if isinstance(elem_ty, Ref) and not getattr(elem_ty, 'optional', False) and not ctx.spec:
+        if is_reflike(elem_ty) and not getattr(elem_ty, 'optional', False) and not ctx.spec:
             cs = z3.simplify(v.z > 0)
             if not z3.is_true(cs):
                 self.emit(ctx, st, 'safe', 'list_element_not_None', v.z > 0,
-                          note='a list of %s objects must not receive None' % elem_ty.cls)
+                          note='a list of %r must not receive None' % (elem_ty,))
 
     def write_field(self, ctx, st, obj, field, val):
         fty = self.field_type(obj.ty.cls, field)
@@ -1169,7 +1183,7 @@ class Engine(object):
         for st2, items in self.ev_list(e.elts, st, ctx):
             elem = self.hint_elem(ctx, e, items)
             for it in items:
-                if isinstance(elem, Ref):
+                if is_reflike(elem):
                     self.elem_store_check(ctx, st2, elem, self.coerce(it, elem))
             yield st2, self.new_list(st2, elem, items)
 
@@ -1483,7 +1497,7 @@ class Engine(object):
                 los = z3.simplify(lo.z)
                 oz = obj.z
                 if z3.is_int_value(los) and z3.is_app_of(oz, z3.Z3_OP_SEQ_CONCAT) and oz.num_args() == 2 \
-                        and z3.is_string_value(oz.arg(0)) and len(oz.arg(0).as_string()) == los.as_long():
+                        and z3.is_string_value(oz.arg(0)) and len(pystr(oz.arg(0))) == los.as_long():
                     return SV(t, oz.arg(1))
             b = self.clamp(self.coerce(hi, INT).z, n) if hi is not None and hi.ty != NONE else n
             return SV(t, z3.SubString(obj.z, a, z3.If(b > a, b - a, I(0))))
